@@ -228,9 +228,45 @@ def _filters_from_edges(ctx: Ctx, fi: FuncInfo, edges, depth: int = 0) -> dict[s
                 out.update(_helper_filters(ctx, callee, want, depth + 1))
                 continue
             neg = isinstance(part, ast.UnaryOp) and isinstance(part.op, ast.Not)
+            inner = part.operand if neg else part
+            if isinstance(inner, ast.Name) and (truth != neg) is False:
+                # a flag that is known to be False here: `excluded = False ... if <filter matches>: excluded = True ... if excluded: continue`
+                # - none of the filters that can set it has matched
+                for k in _flag_kinds(ctx, fi, inner.id, b, depth):
+                    out[k] = False
+                continue
             for k in filter_kinds(ctx, fi, part, b):
                 out[k] = truth != neg
     return out
+
+
+def _flag_kinds(ctx: Ctx, fi: FuncInfo, name: str, at: Node, depth: int) -> set[str]:
+    """Filter kinds whose match sets the boolean local `name` (initialised False, set by `name = True` under filter tests or
+    by `name = <filter expression>`); empty when the variable is not such a flag."""
+    prog = ctx.prog
+    flow = prog.flow(fi)
+    defs = [d for d in flow.defs if d.var == name and d.kind == "assign"]
+    if not defs or any(d.kind not in ("assign",) for d in flow.defs if d.var == name):
+        return set()
+    kinds: set[str] = set()
+    has_init = False
+    for d in defs:
+        v = d.value
+        if isinstance(v, ast.Constant) and v.value is False:
+            has_init = True
+            continue
+        if isinstance(v, ast.Constant) and v.value is True:
+            for b2, lab2 in all_guards(prog, fi, d.node):
+                if b2.kind == "test" and lab2 == "T":
+                    comp = {}
+                    for h2 in flow.cfg.nodes:
+                        if h2.kind == "for" and isinstance(h2.ast.target, ast.Name) and d.node in flow.loop_body_nodes(h2):
+                            comp[h2.ast.target.id] = h2.ast.iter
+                    kinds |= filter_kinds(ctx, fi, b2.ast, b2, comp_bind_extra=comp) - {"isfile", "spec?"}
+            continue
+        if v is not None:
+            kinds |= filter_kinds(ctx, fi, v, d.node) - {"isfile", "spec?"}
+    return kinds if has_init else set()
 
 
 def _helper_filters(ctx: Ctx, callee: FuncInfo, want: bool, depth: int) -> dict[str, bool]:
@@ -344,9 +380,15 @@ def _check_explicit_inline(ctx: Ctx, res: FuncInfo) -> None:
             ctx.ob("R-RESOLVE-V1", f"{res.qual} :: explicit file passed the size filter", f.get("size") is False,
                    f"explicitly named files bypass exclusions but not the size limit; filters known when the file is accepted: {f}", where(res, n))
     for n in flow.cfg.nodes:
-        if n.kind != "test" or not under_is_file(n):
+        if not under_is_file(n):
             continue
-        for part, _truth in _conjuncts(n.ast, "T") + _conjuncts(n.ast, "F"):
+        if n.kind == "stmt" and isinstance(n.ast, ast.Assign):
+            exprs_ = [(n.ast.value, True)]  # excluded = spec.match_file(...) or ...
+        elif n.kind == "test":
+            exprs_ = _conjuncts(n.ast, "T") + _conjuncts(n.ast, "F")
+        else:
+            continue
+        for part, _truth in exprs_:
             if "exclude" not in filter_kinds(ctx, res, part, n):
                 continue
             n_ex += 1
